@@ -192,6 +192,9 @@ def make_scenarios(prop, tier, seed):
             # some jobs start in a further stand-alone buffer that has its own travel-matrix row
             import random as _random
             gen.staging_placement(sc, _random.Random(seed * 11 + i))
+        if prop != "C06" and i % 16 == 7:
+            import random as _random
+            gen.one_based_buffers(sc, _random.Random(seed * 13 + i))
         if prop in ("C16", "C17"):
             sc["max_steps"] = 5      # these checks are about compilation, not about the episode
             if i % 2 == 1:
